@@ -26,13 +26,14 @@ ASSUMPTIONS = ["addresses in a file are distinct (what save_to_file produces)",
 
 def deps_of(ref, i):
     fp = ref.flat[i]
-    return ([fp.sel] if fp.sel is not None else []) + list(fp.hard) + list(fp.soft)
+    return ([fp.sel] if fp.sel is not None else []) + list(fp.hard) + list(fp.soft) + list(getattr(fp, "rdeps", []))
 
 def gen(rng, tier, dist):
     n = 300 if tier == "quick" else 4000
     out = []
     for c in range(n):
-        opts = {"p_soft": 0.6 if rng.random() < 0.5 else 0.0, "p_sel": 0.8, "p_ptr": 0.7}
+        opts = {"p_soft": 0.6 if rng.random() < 0.5 else 0.0, "p_sel": 0.8, "p_ptr": 0.7,
+                "p_rdep": 0.7, "p_nodef": 0.03}
         app = sc.gen_app(rng, opts)
         ref = sc.Ref(app)
         if not ref.flat:
